@@ -327,6 +327,13 @@ def make_case(score, rng, tier):
                 for k, (a, b) in enumerate(spans):
                     p.add(score.Note(step="CDEFGAB"[k], octave=7, id="%s_s%d" % (p.id, k), voice=v, staff=1), a, b)
                 feats.add("staggered_voice")
+        if rng.random() < 0.3:
+            # voices other than the first need not be filled with rests (the first one fills every measure)
+            gone = [r for r in p.iter_all(score.Rest) if (r.voice or 1) > 1 and rng.random() < 0.6]
+            for r in gone:
+                p.remove(r)
+            if gone:
+                feats.add("voice_with_gaps")
         if rng.random() < 0.25 and add_triplet_measure(score, rng, p):
             feats.add("tuplet")
         feats |= decorate(score, rng, p, level)
